@@ -29,6 +29,15 @@ func main() {
 		pprof.StopCPUProfile()
 		os.RemoveAll(workDir())
 		os.Exit(code)
+	case "jobs":
+		for _, t := range []string{"quick", "thorough"} {
+			n := 0
+			if d := checkDefs[os.Args[2]]; d != nil {
+				n = len(d.Jobs(t))
+			}
+			fmt.Printf("%s %s jobs=%d\n", os.Args[2], t, n)
+		}
+		os.Exit(0)
 	case "replay":
 		code := cmdReplay(os.Args[2])
 		os.RemoveAll(workDir())
